@@ -107,7 +107,7 @@ def enumerate_cases(sc):
     if r.error or r.violated:
         raise Broken("StrEnum failed: %s %s" % (r.violated, (r.error or "")[:2000]))
     out = {}
-    for n in ("SET", "SET4", "READER", "CMP", "COPY", "UTF8", "ERRPREFIX"):
+    for n in ("SET", "SET4", "READER", "CMP", "COPY", "UTF8", "LONGSET", "ERRPREFIX"):
         p = os.path.join(d, n + ".json")
         if not os.path.exists(p):
             raise Broken("StrEnum did not write %s" % p)
@@ -142,7 +142,7 @@ def parse_log(path):
     return evs
 
 
-def run_shard(build, sc, label, cases):
+def run_shard(build, sc, label, cases, timeout=600):
     """Runs the cases through the driver.  Returns (log path, crashed cases).  A crash/timeout of the
     interpreter loses the history it happened in (reported by the caller); the rest is re-run."""
     log = sc.file("log_%s.ndjson" % label)
@@ -158,7 +158,7 @@ def run_shard(build, sc, label, cases):
             try:
                 with open(plog, "w") as pf:
                     p = subprocess.run(build.cmd(DRV, script, tmpf), env=build.env(), cwd=vlib.REPO, stdout=pf,
-                                       stderr=subprocess.PIPE, timeout=900)
+                                       stderr=subprocess.PIPE, timeout=timeout)
                 rc, err = p.returncode, p.stderr.decode(errors="replace")
             except subprocess.TimeoutExpired:
                 rc, err = -9, "timeout"
@@ -226,7 +226,8 @@ def campaign(chk, build, sc, name, cases, cfg="StrTrace.cfg", shards=8, stats=No
 
     def work1(i):
         label = "%s_%d" % (name, i)
-        log, crashed = run_shard(build, sc, label, parts[i])
+        # a shard takes a few seconds; a build variant whose memory gets corrupted may also hang
+        log, crashed = run_shard(build, sc, label, parts[i], timeout=150 if prefix else 600)
         evs = parse_log(log)
         if not evs:
             return label, log, crashed, None, {}, evs
@@ -245,6 +246,11 @@ def campaign(chk, build, sc, name, cases, cfg="StrTrace.cfg", shards=8, stats=No
         for victim, rc, nsteps, err in crashed:
             op = victim.steps[nsteps][0] if 0 <= nsteps < len(victim.steps) else "?"
             key = "%scrash:%s" % (prefix, "driver-startup" if nsteps < 0 else victim.kind)
+            with LOCK:
+                bykey = chk.cov.setdefault("rejections_by_key", {})
+                bykey[key] = bykey.get(key, 0) + 1
+                if bykey[key] > 3:
+                    continue
             chk.report(key, "the interpreter died (rc=%s) during step %d (%s) of a %s history" % (rc, nsteps + 1, op, victim.kind),
                        "crash_%s_%d.json" % (name, victim.id), {"key": key, "case": victim.to_json(), "variant": prefix, "rc": rc, "step": nsteps, "stderr": err})
         if r is None:
@@ -290,6 +296,12 @@ def report_rejections(chk, name, rejected, prefix=""):
     bykey = chk.cov.setdefault("rejections_by_key", {})
     # attribute reader cases to single characters where a one-character case already failed
     badchars = collections.defaultdict(set)
+    # once a string-set! with a negative index went through (a write before the buffer), the process memory is
+    # damaged: later rejections of the same driver process are keyed as its consequence, not as new structures
+    first_oob = {}
+    for case, ev, evs, at in rejected:
+        if ev.get("op") == "Set" and ev.get("err") == 0 and ev["a"][1] < 0:
+            first_oob[id(evs)] = min(at, first_oob.get(id(evs), at))
     for case, ev, evs, at in sorted(rejected, key=lambda x: len(x[1].get("l") or [])):
         op = ev.get("op", "Reset")
         key = "%s%s" % (prefix, op)           # structural: what fails, not which campaign produced it
@@ -317,6 +329,13 @@ def report_rejections(chk, name, rejected, prefix=""):
             key += ":raised"
         if op == "Cmp" and any(0 in ev["cp"][r - 1] for r in ev["a"] if r <= 3):
             key += ":operand-has-U+0000"
+        if op in ("Ref", "Set", "CurFromIndex") and ev.get("err") == 0 and ev["a"][2 if op == "CurFromIndex" else 1] < 0:
+            key = "%s%s:negative-index-accepted" % (prefix, op)
+        elif ev.get("e") == "Step" and ev.get("cp") != ev.get("ref") and not any(x == [-2] for x in ev["cp"] + ev["ref"]):
+            # two observations of the implementation disagree with each other
+            key = prefix + "string-ref-disagrees-with-string->list"
+        if id(evs) in first_oob and at > first_oob[id(evs)] and "negative-index-accepted" not in key:
+            key = prefix + "after-out-of-bounds-write"
         bykey[key] = bykey.get(key, 0) + 1
         if bykey[key] > 3:
             continue
@@ -565,6 +584,9 @@ def build_cases(chk, en, hist_main, hist_nul, hist_long):
     main = [mk("hist", h) for h in hist_main]
     nul = [mk("nul", h) for h in hist_nul]
     lng = [mk("long", h) for h in hist_long]
+    for n, c1, i, c2 in (en["LONGSET"] if chk.thorough else chk.rng.sample(en["LONGSET"], 80)):
+        lng.append(mk("longset", [["MakeString", [1, n, c1], []], ["Set", [1, i, c2], []], ["Ref", [1, n - 1], []],
+                                  ["CurFromIndex", [1, 1, n - 1], []], ["CurInfo", [1], []], ["Substring", [3, 1, i, n], []]]))
     return sets, reader, errc, cmpc + copyc, main, nul, lng
 
 
